@@ -93,8 +93,9 @@ def run(tier):
     variants = list(read_ndjson(gen.cases_path))
     # a split into two files only makes sense if the second file is non-empty; swapFiles without a second file is the same variant
     variants = [x for x in variants if x["second"] or not x["swapFiles"]]
-    if tier == "quick" and len(variants) > 900:
-        variants = rnd.sample(variants, 900)
+    vcap = 900 if tier == "quick" else 8000
+    if len(variants) > vcap:
+        variants = rnd.sample(variants, vcap)
     base_variant = {"perm": base, "extras": [], "second": [], "swapFiles": False, "extrasFirst": False, "link": "none", "bulk": False}
     allv = [base_variant] + variants
     docs = []
@@ -147,6 +148,11 @@ def run(tier):
     nproj = 12 if tier == "quick" else 40
     projs = [render(x, base) for x in [base_variant, dict(base_variant, bulk=True)] + rnd.sample(variants, nproj - 2)]
     projs.append([{"path": "bulk.circom", "named": True, "text": BULK}])
+    # definitions that read a variable before it is defined in two places: only one error is reported; which one must not vary
+    for body in ("  if (!(6 >> n)) {\n    var a = a;\n  }\n  var a;\n  return a - a;\n",
+                 "  if (n == 1) {\n    var b = c + 1;\n    var c = 1;\n  } else {\n    var d = e + 2;\n    var e = 2;\n  }\n  return n;\n",
+                 "  for (var i = 0; i < 2; i++) {\n    if (m == i) {\n      var u = w;\n      var w = 1;\n    }\n    var x = y;\n    var y = 2;\n  }\n  return n;\n"):
+        projs.append([{"path": "ubd.circom", "named": True, "text": HEAD + "function f(n, m) {\n" + body + "}\n"}])
     jobs = [(pi, k) for pi in range(len(projs)) for k in range(K)]
 
     def one(job):
@@ -195,12 +201,12 @@ def run(tier):
         v.violation(sig, m)
     n_eval = 2 * len(allv) + len(orders) + len(jobs)
     cov = {"states": l1.distinct + gen.distinct + states, "transitions": l1.generated + gen.generated + states,
-           "traces_validated_against_impl": n_eval, "exhaustive": tier == "thorough", "evaluations": n_eval,
+           "traces_validated_against_impl": n_eval, "exhaustive": False, "evaluations": n_eval,
            "distinct_nontrivial": len(allv),
            "rule": "B: %d variants of the base project %s (all permutations x file splits in both orders x subsets of 3 unrelated extras "
                    "x extras first/last%s), two in-process runs each; C: all %d analysis orders via H4; A: %d projects x %d fresh "
                    "processes of the real binary; non-trivial = distinct variants" %
-                   (len(allv), base, ", sampled" if tier == "quick" else "", len(orders), len(projs), K),
+                   (len(allv), base, ", sampled", len(orders), len(projs), K),
            "samples": [allv[1], allv[len(allv) // 2], {"files": [f["path"] for f in projs[1]]}]}
     return v.finish(cov, assumptions=["findings are normalised to (id, severity, message, text under each label) for transformations",
                                       "hash-map orders are sampled by fresh processes / fresh maps (not enumerable from outside); every "
